@@ -619,7 +619,14 @@ func apiStoreRevalidated(p *Prog, ctx *CtxInfo, f *Fn, call *ast.CallExpr, inv *
 						for _, ifn := range invFns {
 							if p.FnOfObj(fn) == ifn.f {
 								// only primary invalidations: the argument is not a Manager field (not the re-apply of a during-mask)
-								return len(cc.Args) == 1 && mgrField(ginfo, cc.Args[0]) == nil && identObj(ginfo, ast.Unparen(cc.Args[0])) != nil
+								if len(cc.Args) != 1 || mgrField(ginfo, cc.Args[0]) != nil {
+									return false
+								}
+								a := ast.Unparen(cc.Args[0])
+								if ue, ok := a.(*ast.UnaryExpr); ok && ue.Op == token.AND {
+									a = ast.Unparen(ue.X) // &local
+								}
+								return identObj(ginfo, a) != nil
 							}
 						}
 						return false
